@@ -5,7 +5,7 @@ CONSTANTS
   PoolSize = 7
   Limit = 3
   MaxDepth = 8
-  MaxLevel = 5
+  MaxLevel = 6
   InitBases <- MCInitBases
   Crafts <- CraftsQuick
   Perms = {"anyone"}
